@@ -14,6 +14,7 @@ use crate::variant::*;
 // Rust 1.14.0 requires the following despite the asterisk above.
 use super::in_inclusive_range16;
 
+#[cfg_attr(feature = "hsivonen_encoding_rs_verif", derive(Debug, Clone, PartialEq, Eq, Hash))]
 enum EucJpPending {
     None,
     Jis0208Lead(u8),
@@ -38,6 +39,7 @@ impl EucJpPending {
     }
 }
 
+#[cfg_attr(feature = "hsivonen_encoding_rs_verif", derive(Debug, Clone, PartialEq, Eq, Hash))]
 pub struct EucJpDecoder {
     pending: EucJpPending,
 }
@@ -245,6 +247,7 @@ fn encode_kanji(bmp: u16) -> Option<(u8, u8)> {
     }
 }
 
+#[cfg_attr(feature = "hsivonen_encoding_rs_verif", derive(Debug, Clone, PartialEq, Eq, Hash))]
 pub struct EucJpEncoder;
 
 impl EucJpEncoder {
